@@ -17,7 +17,12 @@ the lowest-numbered unfinished thread).  A *schedule* is a list of deviations
 preemption (cost 1), one at a start / end point is free (cost 0) because the
 scheduler has to pick somebody anyway.  After the last deviation the execution
 runs non-preemptively to completion.  `explore` enumerates every schedule of
-cost <= P by depth-first search over prefixes.
+cost <= P, cost level by cost level (iterative preemption bounding); a
+divergence while a prefix is replayed (another thread, kind or line at the
+recorded point than in the parent execution) is a SchedulerError.
+
+The threads are long-lived daemon workers that are reused by successive
+executions (thread creation costs more than a controlled execution).
 
 The library under test has no locks, so the baton is the only
 synchronisation.  A global horizon (number of points) aborts executions that
